@@ -6,8 +6,12 @@ hyper-parameters back EXACTLY (float64 -> rational), and asks the Coq model
 compared with kernel(x1, x2).to_dense(), kernel(x).to_dense() and kernel(x, diag=True) under
 every code-path toggle (parameter grads on/off, x.requires_grad, trace_mode)."""
 import json
+import os
 import random
 import re
+import shutil
+import subprocess
+from concurrent.futures import ThreadPoolExecutor
 
 import mpmath
 import torch
@@ -21,8 +25,90 @@ LEVEL_NOTE = ("theorems are about the Gallina model of the documented formulas; 
               "(public kernel calls in float64 vs mpmath evaluation of the model's closed-form terms, rtol 1e-10)")
 IMPORTS = ("From Coq Require Import List ZArith QArith Qcanon.\n"
            "From GPV Require Import Base.LinAlg Base.Exec Base.Expr Models.C05_kernels.")
-RUN_DEF = "Definition run := run_job."
+RUN_DEF = "Definition run c := pack (run_job c)."
 ATOL, RTOL = 1e-12, 1e-10
+# Entries whose two rows coincide, for kernels that are functions of the UNSQUARED distance r: the library gets r as
+# sqrt(max(r^2, 1e-30)) with r^2 from the quadratic expansion, whose absolute rounding error eps*|x/l|^2 (<= 1e-13 on
+# the generated inputs) becomes up to sqrt(1e-13) ~ 3e-7 in r when the exact r is 0 (limit DESIGN 9.4: float rounding).
+# All other entries (r >= 1/(8 l)) keep rtol 1e-10.
+ATOL_COINCIDENT_R = 2e-6
+
+
+def unpack(words):
+    """inverse of Models.C05_kernels.pack"""
+    out, i, n = [], 0, len(words)
+    while i < n:
+        w = words[i]
+        i += 1
+        neg = (w >> 1) & 1
+        if w & 1:
+            k = w >> 2
+            v = 0
+            for t in range(k):
+                v |= words[i + t] << (60 * t)
+            i += k
+        else:
+            v = w >> 2
+        out.append(-v if neg else v)
+    return out
+
+
+_WTOK = re.compile(r"\[|\]|0x[0-9a-fA-F]+|\d+")
+
+
+def parse_words(text):
+    """output of `Eval vm_compute in (_ : list (list int))` -> list of list[int] (hex or decimal literals)"""
+    chunk = re.split(r"(?m)^\s*=", text)[1].split("\n     :")[0].replace("%uint63", "")
+    res, cur, depth = [], None, 0
+    for t in _WTOK.findall(chunk):
+        if t == "[":
+            depth += 1
+            if depth == 2:
+                cur = []
+        elif t == "]":
+            if depth == 2:
+                res.append(cur)
+            depth -= 1
+        else:
+            cur.append(int(t, 16) if t.startswith("0x") else int(t))
+    return res
+
+
+def fast_run_cases(tag, imports, run_def, cases, nshards=16, timeout=1800):
+    """like common.coq_run_cases, but (a) `run` returns primitive ints (packed, see the model file) which Coq prints
+    ~15x faster than Z numerals, (b) cases are dealt round-robin so that the expensive families are spread over all
+    shards.  Returns one list[int] (already unpacked) per case."""
+    d = os.path.join(C.BUILD, "cases_" + tag)
+    shutil.rmtree(d, ignore_errors=True)
+    os.makedirs(d)
+    nshards = max(1, min(nshards, len(cases)))
+    files, members = [], []
+    for k in range(nshards):
+        idx = list(range(k, len(cases), nshards))
+        name = "c%s_%d" % (re.sub(r"\W", "_", tag), k)
+        body = [imports, "Import ListNotations.", "Local Open Scope Z_scope.", run_def,
+                "Definition cases := [", ";\n".join(cases[i] for i in idx), "].",
+                "Eval vm_compute in (map run cases)."]
+        fp = os.path.join(d, name + ".v")
+        open(fp, "w").write("\n".join(body) + "\n")
+        files.append(fp)
+        members.append(idx)
+
+    def one(fp):
+        return subprocess.run(["coqc", "-Q", C.COQ, "GPV", "-w", "-all", fp], cwd=d, capture_output=True, text=True,
+                              timeout=timeout)
+    with ThreadPoolExecutor(max_workers=min(C.NPROC, 16)) as ex:
+        rs = list(ex.map(one, files))
+    out = [None] * len(cases)
+    for fp, idx, r in zip(files, members, rs):
+        if r.returncode != 0:
+            raise RuntimeError("coqc failed on %s:\n%s" % (fp, (r.stdout + r.stderr)[-4000:]))
+        res = parse_words(r.stdout)
+        if len(res) != len(idx):
+            raise RuntimeError("unexpected coqc output for %s: %s" % (fp, r.stdout[:2000]))
+        for i, words in zip(idx, res):
+            out[i] = unpack(words)
+    return out
 
 torch.set_default_dtype(torch.float64)
 mpmath.mp.dps = 30
@@ -62,7 +148,7 @@ def gskl_doc_form():
 SIMPLE = ["rbf", "matern05", "matern15", "matern25", "rq", "periodic", "cosine", "linear", "poly", "const"]
 STRUCT_BASES = ["rbf", "matern15", "matern25", "rq", "periodic", "linear", "poly"]
 FAMILIES = (SIMPLE + ["pp0", "pp1", "pp2", "pp3", "scale", "sum", "prod", "sm", "sdelta", "arc", "cyl", "hamming",
-                      "gskl", "addstruct", "prodstruct", "ng", "active", "rbfgrad", "m52grad", "polygrad", "rbfgg"])
+                      "gskl", "gskl_div", "addstruct", "prodstruct", "ng", "active", "rbfgrad", "m52grad", "polygrad", "rbfgg"])
 MULTI = {"rbfgrad", "m52grad", "polygrad", "rbfgg"}
 HAS_ARD = {"rbf", "matern05", "matern15", "matern25", "rq", "periodic", "linear", "pp0", "pp1", "pp2", "pp3", "sdelta",
            "arc", "rbfgrad", "m52grad", "rbfgg", "addstruct", "prodstruct", "ng", "scale"}
@@ -120,10 +206,16 @@ def gen_spec(rng, fam, d, ard):
     elif fam == "hamming":
         s["alpha"] = u(rng, 0.3, 3.0); s["beta"] = u(rng, 0.3, 2.5); s["vocab"] = rng.randint(2, 3)
         s["T"] = d                    # sequence length; input dimension is T * vocab
-    elif fam == "gskl":
+    elif fam in ("gskl", "gskl_div"):
+        # "gskl" is compared with the form the docstring states; "gskl_div" with exp(-d / lengthscale), which is
+        # what a corrected docstring would say (known finding C05-distributional-kernel-doc-lengthscale): it keeps
+        # the symmetrised-KL distance itself under test while the documentation disagrees with the code
         s["l"] = [u(rng, 0.5, 3.0)]    # d distributions dims; input dimension is 2 d
     elif fam in ("addstruct", "prodstruct", "ng"):
-        b = rng.choice(STRUCT_BASES)
+        # ProductStructureKernel over a base that returns a lazy (non-dense) operator multiplies the d factors by
+        # Lanczos root decompositions (SKIP: approximate, square only - documented in its __call__); the exact
+        # product is what is checked here, so its bases are the ones that return dense tensors
+        b = rng.choice([x for x in STRUCT_BASES if not (fam == "prodstruct" and x == "linear")])
         s["sub"] = [gen_spec(rng, b, d, bool(ard) and b in HAS_ARD)]
         if fam == "ng":
             s["os"] = [u(rng, 0.2, 1.5) for _ in range(rng.randint(1, d))]
@@ -140,7 +232,7 @@ def gen_spec(rng, fam, d, ard):
 def in_dim(spec):
     if spec["fam"] == "hamming":
         return spec["T"] * spec["vocab"]
-    if spec["fam"] == "gskl":
+    if spec["fam"] in ("gskl", "gskl_div"):
         return 2 * spec["d"]
     return spec["d"]
 
@@ -223,9 +315,10 @@ def build(spec, **kw):
     if f == "hamming":
         m = K.HammingIMQKernel(vocab_size=spec["vocab"]); m.alpha = spec["alpha"]; m.beta = spec["beta"]
         return m, "(KHamming %s %s %d%%nat)" % (q1(m.alpha), q1(m.beta), spec["vocab"])
-    if f == "gskl":
+    if f in ("gskl", "gskl_div"):
         m = K.GaussianSymmetrizedKLKernel(); m.lengthscale = T(spec["l"])
-        return m, "(KGSKL %s %s %s)" % ("true" if gskl_doc_form() else "false", q1(m.lengthscale), C.qc_lit(1e-8))
+        mul = gskl_doc_form() if f == "gskl" else False
+        return m, "(KGSKL %s %s %s)" % ("true" if mul else "false", q1(m.lengthscale), C.qc_lit(1e-8))
     if f in ("addstruct", "prodstruct", "ng"):
         b, bt = build(spec["sub"][0])
         if f == "ng":
@@ -263,7 +356,7 @@ def gen_points(rng, spec, n, avoid=()):
                 r += [1.0 if i == k else 0.0 for i in range(spec["vocab"])]
         elif f == "cyl":
             r = [rng.choice([-1, 1]) * rng.randint(1, 6) / 16.0 for _ in range(d)]
-        elif f == "gskl":
+        elif f in ("gskl", "gskl_div"):
             r = [rng.randint(-16, 16) / 8.0 for _ in range(d // 2)] + [rng.randint(-8, 8) / 8.0 for _ in range(d // 2)]
         elif f.startswith("pp"):
             r = [rng.randint(-12, 12) / 8.0 for _ in range(d)]
@@ -338,9 +431,25 @@ def variant(spec):
     return f
 
 
+def uses_r(spec):
+    """does the documented function depend on the unsquared distance r (non-smooth in r^2 at 0)?"""
+    f = spec["fam"]
+    if f.startswith("matern") or f.startswith("pp") or f in ("cosine", "m52grad"):
+        return True
+    if f in ("arc", "cyl"):
+        return spec["base"].startswith("matern")
+    return any(uses_r(s) for s in spec.get("sub", []))
+
+
 def compare(out, spec, case, call, ctx, got, model):
     """got: impl tensor; model: matrix of mpf for the call's (x1, x2) pair"""
     p = outputs_per_point(spec)
+    xa = case["x1"]
+    xb = {"full": case["x2"], "sym": case["x1"], "diag": case["x1"], "diag2": case["x2b"]}[call]
+    loose = uses_r(spec)
+
+    def atol(I, J):
+        return ATOL_COINCIDENT_R if loose and xa[I // p] == xb[J // p] else ATOL
     key = "value:%s:%s:%s%s" % (variant(spec), call, ctx, ":ard" if spec["ard"] else "")
     desc = dict(spec=spec, case=case, call=call, ctx=ctx)
     if call in ("diag", "diag2"):
@@ -350,7 +459,7 @@ def compare(out, spec, case, call, ctx, got, model):
             out.fail(key + ":shape", "diag output has %d entries, documented layout has %d" % (len(g), len(want)), desc,
                      impl=g, model=[float(v) for v in want])
             return False
-        bad = [(i, g[i], float(want[i])) for i in range(len(want)) if not C.close(g[i], want[i], ATOL, RTOL)]
+        bad = [(i, g[i], float(want[i])) for i in range(len(want)) if not C.close(g[i], want[i], atol(i, i), RTOL)]
     else:
         rows, cols = len(model), len(model[0]) if model else 0
         if tuple(got.shape) != (rows, cols):
@@ -358,7 +467,7 @@ def compare(out, spec, case, call, ctx, got, model):
             return False
         g = got.tolist()
         bad = [((i, j), g[i][j], float(model[i][j])) for i in range(rows) for j in range(cols)
-               if not C.close(g[i][j], model[i][j], ATOL, RTOL)]
+               if not C.close(g[i][j], model[i][j], atol(i, j), RTOL)]
     if bad:
         out.fail(key, "kernel value differs from the documented formula at entry %s: impl %.12g, documented %.12g "
                  "(%d of %d entries differ; outputs per point = %d)" % (bad[0][0], bad[0][1], bad[0][2], len(bad),
@@ -403,7 +512,7 @@ def run_models(tag, items):
                            ("d2", case["x1"], case["x2b"])):
             coq_cases.append(coq_case(term, spec, xa, xb))
             index.append((k, nm, len(xa), len(xb)))
-    res = C.coq_run_cases(tag, IMPORTS, RUN_DEF, coq_cases, shard=max(8, len(coq_cases) // 16 + 1))
+    res = fast_run_cases(tag, IMPORTS, RUN_DEF, coq_cases)
     models = [dict() for _ in items]
     for (k, nm, na, nb), r in zip(index, res):
         p = outputs_per_point(items[k][0])
@@ -475,7 +584,8 @@ def run(out, ctx):
                 "x.requires_grad (generic path), trace_mode (generic path)}; non-trivial = the documented matrix is "
                 "not constant")
     out.exhaustive = False
-    out.extra["tolerances"] = {"atol": ATOL, "rtol": RTOL, "mpmath_digits": mpmath.mp.dps}
+    out.extra["tolerances"] = {"atol": ATOL, "rtol": RTOL, "mpmath_digits": mpmath.mp.dps,
+                               "atol_coincident_rows_r_kernels": ATOL_COINCIDENT_R}
     out.extra["gskl_doc_form"] = "exp(-a d)" if gskl_doc_form() else "exp(-d/a)"
     shrunk = set()
     for (spec, case, term, kern), md in zip(items, models):
